@@ -378,17 +378,15 @@ class Grammar:
                     add(k)
             elif is_dataclass(c):
                 for _, k in get_arguments(c):
-                    if is_metahandler(k):
-                        k = get_generic_parameter(k)
-                        add(k)
-                    elif is_generic_list(k):
-                        k = get_generic_parameter(k)
-                        add(k)
-                    elif is_generic(k):
-                        for v in get_generic_parameters(k):
-                            add(v)
-                    else:
-                        add(k)
+                    pending = [k]
+                    while pending:  # unwrap nested annotations, lists, tuples and unions
+                        k = pending.pop()
+                        if is_metahandler(k) or is_generic_list(k):
+                            pending.append(get_generic_parameter(k))
+                        elif is_generic(k):
+                            pending.extend(get_generic_parameters(k))
+                        else:
+                            add(k)
             elif c in [bool, int, str, float, list, tuple]:
                 pass
             else:
